@@ -515,6 +515,9 @@ pub fn c10(ctx: &Ctx, rep: &mut Report) {
             Outcome::pass(true, vec!["datagram-flood"])
         },
     );
+    // the peer's (valid) answer to a request whose local caller has given up meanwhile: a flow in the state "requested, nobody
+    // waiting" - the endpoint must go on serving whatever the answer is
+    ctx.enumerate(rep, "answer-to-abandoned-request", super::conn::CANCELLED_REQUEST_CASES, 6, super::conn::cancelled_request_case, super::conn::run_cancelled_request);
     ctx.prop(
         rep,
         "invalid-messages",
